@@ -24,3 +24,9 @@ where
 pub(crate) fn verif_tracing_span_none(_m: &'static tracing::Metadata<'static>, _v: &tracing::field::ValueSet<'_>) -> tracing::Span {
     tracing::Span::none()
 }
+
+// perfetto_recorder::record_event is only called when recording is enabled (a cargo feature that
+// is off, plus a runtime switch); its thread-local event buffer statically reaches code the Kani
+// 0.68 compiler cannot translate (same crash).  "Recording disabled" = no-op.
+#[allow(dead_code)]
+pub(crate) fn verif_perfetto_record_noop(_e: perfetto_recorder::Event) {}
